@@ -50,6 +50,11 @@
 #else
 #define VH_PDU_BLOCK() size_t blk_size = (size_t)max_hdr_size + alloc_size + phys_extra; IN_BUF(blk, blk_size, CAPW)
 #endif
+/* a unit may pin layout parameters that its function never looks at to constants (assignments, so that cbmc's constant
+ * propagation sees them): the values must satisfy the assumptions above */
+#ifndef VH_PDU_FIX
+#define VH_PDU_FIX do { } while (0)
+#endif
 #define HARNESS_PDU(pdu) \
   IN_SCALAR(uint8_t, max_hdr_size); IN_SCALAR(uint8_t, hdr_size); \
   IN_SCALAR(size_t, alloc_size); IN_SCALAR(size_t, used_size); IN_SCALAR(size_t, max_size); \
@@ -60,6 +65,7 @@
   ASSUME(used_size <= alloc_size && tok_len <= TOKMAX && tok_len + BIAS(tok_len) <= used_size); \
   ASSUME(data_off == 0 || (data_off > tok_len + BIAS(tok_len) && data_off < used_size)); \
   ASSUME(ptype <= 3); \
+  VH_PDU_FIX; \
   VH_PDU_BLOCK(); \
   coap_pdu_t *pdu = VH_PDU_ALLOC(); ASSUME(pdu != NULL); \
   pdu->max_hdr_size = max_hdr_size; pdu->hdr_size = hdr_size; pdu->alloc_size = alloc_size; \
